@@ -413,6 +413,30 @@ def make_source(rng, kind: str, ml, ap: bool = False):
         a.atype = ml.AtomType.AttachmentPoint
         # distinct positions so that the join geometry is defined
         m.coords = np.array([[1.5 * i + 0.25 * (i % 2), 0.5 * (i % 3), 0.75 * ((i * i) % 4)] for i in range(m.n_atoms)])
+    if kind in ("Structure", "Molecule") and not ap and m.n_atoms <= 8 and rng.below(100) < 30:
+        # a source with an edit history: atoms added, deleted, hydrogens added before it is copied
+        with warnings.catch_warnings():
+            warnings.simplefilter("ignore")
+            old = np.seterr(all="ignore")
+            try:
+                for _ in range(rng.range(1, 3)):
+                    e = rng.below(3)
+                    if e == 0 and m.n_atoms > 1:
+                        m.del_atom(rng.below(m.n_atoms))
+                    elif e == 1:
+                        a = m.new_atom(ml.Element.C, coord=[rng.range(-9, 9) / 2.0, 1.0, 2.0])
+                        a.attrib = rand_attrib(rng, 2, 40)
+                        if m.n_atoms > 1:
+                            m.connect(rng.below(m.n_atoms - 1), a)
+                    else:
+                        try:
+                            m.add_implicit_hydrogens(m.atoms[rng.below(m.n_atoms)])
+                        except Exception:
+                            pass
+            finally:
+                np.seterr(**old)
+        if np.isnan(np.asarray(m.coords)).any():
+            m.coords = np.nan_to_num(np.asarray(m.coords), nan=0.5)
     if kind == "Conformer":
         return m[rng.below(m.n_conformers)]
     return m
@@ -431,6 +455,141 @@ def route_copy(route: str, src, ml):
     if route == "deepcopy":
         return copy.deepcopy(src)
     raise ValueError(route)
+
+
+# ---------------------------------------------------------------------------------------------
+# copy constructors across classes and with keyword overrides
+# ---------------------------------------------------------------------------------------------
+CLASSES = ["Promolecule", "Connectivity", "CartesianGeometry", "Structure", "Molecule", "ConformerEnsemble"]
+SLOTS = {"Promolecule": 0, "Connectivity": 0, "CartesianGeometry": 1, "Structure": 1, "Molecule": 2, "Conformer": 2,
+         "ConformerEnsemble": 3}
+FAMILY = {"Promolecule": 0, "Connectivity": 0, "CartesianGeometry": 1, "Structure": 1, "Molecule": 1, "Conformer": 1,
+          "ConformerEnsemble": 2}
+BONDED = {"Connectivity", "Structure", "Molecule", "ConformerEnsemble", "Conformer"}
+ARRAY_KW = ["coords", "atomic_charges", "weights"]
+FILL = [float("nan"), 0.0, 1.0]
+
+
+def target_shapes(src_kind: str, target: str, n_atoms: int, src_k: int | None, kw: dict) -> list[tuple]:
+    """shapes of the arrays of `target(src, **kw)` (documented construction rules)"""
+    if target in ("CartesianGeometry", "Structure"):
+        return [(n_atoms, 3)]
+    if target == "Molecule":
+        return [(n_atoms, 3), (n_atoms,)]
+    if target == "ConformerEnsemble":
+        if src_kind == "ConformerEnsemble":
+            k = src_k
+        else:
+            k = kw.get("n_conformers", 0)
+            if src_kind in ("Molecule", "Conformer"):
+                k = k or 1
+        return [(k, n_atoms, 3), (k, n_atoms), (k,)]
+    return []
+
+
+def keyword_names(target: str) -> list[str]:
+    """the keyword arguments the copy constructor of `target` accepts"""
+    names = ["name", "charge", "mult", "attrib", "copy_atoms", "n_atoms"] + ARRAY_KW[: SLOTS[target]]
+    if target == "ConformerEnsemble":
+        names.append("n_conformers")
+    return names
+
+
+def make_keywords(rng, names: list[str]) -> dict:
+    kw = {}
+    for k in names:
+        if k == "name":
+            kw[k] = rng.choice(["renamed", "ov_name"])
+        elif k == "charge":
+            kw[k] = rng.choice([0, 2, -1, 3])
+        elif k == "mult":
+            kw[k] = rng.choice([0, 2, 3])
+        elif k == "attrib":
+            kw[k] = {"ov1": rand_scalar(rng), "ov2": rand_container(rng, 1)} if rng.below(2) else {"ov1": [1, {"z": 2}]}
+        elif k == "copy_atoms":
+            kw[k] = True
+        elif k == "n_atoms":
+            kw[k] = rng.range(0, 9)
+        elif k == "n_conformers":
+            kw[k] = rng.range(0, 3)
+        else:
+            kw[k] = None  # an array: filled in when the shape is known
+    return kw
+
+
+def random_keywords(rng, target: str, shapes: list[tuple], pmax=2) -> dict:
+    """0..pmax keyword overrides that the constructor of `target` accepts"""
+    names = keyword_names(target)
+    return make_keywords(rng, [rng.choice(names) for _ in range(rng.range(0, pmax))])
+
+
+def fill_array_keywords(rng, kw: dict, shapes: list[tuple]):
+    for j, k in enumerate(ARRAY_KW[: len(shapes)]):
+        if k in kw and kw[k] is None:
+            kw[k] = rand_coords(rng, shapes[j]) + 100.0
+    return kw
+
+
+def expected_cast(snap: dict, src_kind: str, target: str, kw: dict, shapes: list[tuple]) -> dict:
+    """model-free expectation for `target(src, **kw)`: what the classes have in common is carried over, overrides win"""
+    d = {k: copy.deepcopy(v) for k, v in snap.items()}
+    d["cls"] = target
+    if kw.get("name"):
+        d["name"] = kw["name"]
+    if kw.get("charge"):
+        d["charge"] = int(kw["charge"])
+    if kw.get("mult"):
+        d["mult"] = int(kw["mult"])
+    if kw.get("attrib"):
+        d["attrib"] = {**d["attrib"], **copy.deepcopy(kw["attrib"])}
+    if target not in BONDED:
+        d["bonds"] = []
+    arrays = []
+    for j in range(SLOTS[target]):
+        key = ARRAY_KW[j]
+        if kw.get(key) is not None:
+            arr = np.broadcast_to(np.asarray(kw[key], dtype=float), shapes[j])
+            arrays.append(("float64", tuple(shapes[j]), [_bits(x) for x in arr.ravel().tolist()]))
+        elif FAMILY[src_kind] == FAMILY[target] and j < SLOTS[src_kind]:
+            arrays.append(snap["arrays"][j])
+        else:
+            n = int(np.prod(shapes[j]))
+            arrays.append(("float64", tuple(shapes[j]), [_bits(FILL[j])] * n))
+    d["arrays"] = arrays
+    return d
+
+
+def override_tokens(kw: dict, target: str, shapes: list[tuple], I, ids) -> tuple[str, str, str, str]:
+    """(scalars, attrib entries, array overrides, fills) of a `copyas` request"""
+    sc = [str(I(("name", kw["name"])) + 1) if kw.get("name") is not None else "_",
+          str(int(kw["charge"])) if kw.get("charge") is not None else "_",
+          str(int(kw["mult"])) if kw.get("mult") is not None else "_"]
+    at = ",".join(ent_tokens(kw["attrib"], I, ids)) if kw.get("attrib") else "-"
+    arrs, fills = [], []
+    for j in range(SLOTS[target]):
+        key = ARRAY_KW[j]
+        if kw.get(key) is not None:
+            arr = np.broadcast_to(np.asarray(kw[key], dtype=float), shapes[j])
+            codes = array_codes(arr, I)
+            arrs.append(_ints(codes) if codes else "=")
+        else:
+            arrs.append("_")
+        n = int(np.prod(shapes[j]))
+        fills.append(",".join([str(I(FILL[j]))] * n) if n else "=")
+    return ",".join(sc), at, "+".join(arrs) or "-", "+".join(fills) or "-"
+
+
+def encode_atoms_only(o, I, ids: Ids) -> str:
+    """the `M …` group of a bare list of atoms (what `Cls(list_of_atoms, copy_atoms=True)` is given): a Promolecule-like
+    source that has only the atoms; default name / charge / mult, no attributes"""
+    mid = ids.fresh()
+
+    def box(d):
+        return f"{ids.of(d)}/{','.join(ent_tokens(d, I, ids))}"
+
+    atoms = [f"{ids.of(a)};{_ints(atom_fields(a, I))};{box(a.attrib)};{mid}" for a in o.atoms]
+    return " ".join(["M", str(mid), "1", "0,0,1", f"{ids.fresh()}/", str(ids.fresh()), "+".join(atoms) or "-",
+                     str(ids.fresh()), "-", "-"])
 
 
 # ---------------------------------------------------------------------------------------------
@@ -491,6 +650,17 @@ def mutations(o, ml):
                 finally:
                     np.seterr(**old)
         muts.append(("add_implicit_hydrogens", addh))
+    if name in ("CartesianGeometry", "Structure", "Molecule", "ConformerEnsemble") and o.n_atoms:
+        muts.append(("scale(2)", lambda: o.scale(2.0)))
+    if name == "ConformerEnsemble" and o.n_atoms:
+        muts.append(("translate", lambda: o.translate([1.0, 2.0, 3.0])))
+    if name in ("Structure", "Molecule") and o.n_atoms:
+        muts.append(("new_atom", lambda: o.new_atom(ml.Element.F, coord=[7.0, 7.0, 7.0])))
+        muts.append(("connect", lambda: o.connect(0, o.n_atoms - 1)))
+    if name != "Conformer":
+        muts.append(("label_atoms", lambda: o.label_atoms("{e}{n1}x")))
     if name in ("Promolecule", "Connectivity", "CartesianGeometry", "Structure", "Molecule") and o.n_atoms:
         muts.append(("del_atom(0)", lambda: o.del_atom(0)))
+    if name in ("Connectivity", "Structure", "Molecule", "ConformerEnsemble") and len(o.bonds):
+        muts.append(("del_bond", lambda: o.del_bond(o.bonds[0])))
     return muts
